@@ -1262,6 +1262,10 @@ func TestVerifC09(t *testing.T) {
 			var cs c09CtlCase
 			_ = json.Unmarshal(line, &cs)
 			return c09RunCtl(cs)
+		case "pref":
+			var cs c09PrefCase
+			_ = json.Unmarshal(line, &cs)
+			return c09RunPref(cs)
 		case "tcp":
 			var cs c09TcpCase
 			_ = json.Unmarshal(line, &cs)
